@@ -746,7 +746,7 @@ def explore(ctx, families):
                                 'observed': [{'strong': o['strong'][0], 'strong_hash': o['strong'][2], 'fuzzy_hash': o['fuzzy'][2]} for o in obs]},
                                limit=3)
             pairs_sound(ctx, entries)
-        ntrav = 1500 if ctx.tier == 'quick' else 20000
+        ntrav = 1500 if ctx.tier == 'quick' else 8000
         if families and not getattr(ctx, 'replaying', False):
             run_traversal(ctx, drv, ntrav)
     finally:
@@ -794,12 +794,12 @@ def run(ctx):
     families = []
     for tag, w in corpus_worlds():
         families.append(make_family(rng, tag, w, 4 if tag != 'F16b-replicas' else 0))
-    nbase = 60 if ctx.tier == 'quick' else 700
+    nbase = 100 if ctx.tier == 'quick' else 400
     nvar = 5 if ctx.tier == 'quick' else 8
     for i in range(nbase):
         kw = rng.random() < 0.06
         families.append(make_family(rng, 'kw' if kw else 'rand', gen_world(rng, kw), nvar))
-    for i in range(12 if ctx.tier == 'quick' else 120):
+    for i in range(16 if ctx.tier == 'quick' else 60):
         families.append(make_family(rng, 'chain', chain_world(rng, rng.randint(1, 3)), nvar))
     explore(ctx, families)
 
